@@ -3,4 +3,6 @@ CONSTANTS
   Family = "form"
   MaxDepth = 3
   FullOps = "reps"
+  AllAtomsUpTo = 1
+  DefaultFrom = 99
 INVARIANTS SpineOK FullOK Emit
